@@ -22,3 +22,13 @@ for f in sorted(os.listdir(os.path.join(HERE, "evidence"))):
     out[pid] = {"sources": cov.get("source_sha256", {}), "obligations": rows}
     print("%s: %d obligations (%d discharged)" % (pid, len(rows), sum(1 for v in rows.values() if v == "discharged")))
 json.dump(out, open(os.path.join(HERE, "contracts", "expected_obligations.json"), "w"), indent=0, sort_keys=True)
+# state frames: the attributes / class- and module-level containers each function under contract writes on the pinned tree (derived from
+# the code by the effect log of the symbolic execution); `assigns.state` obligations compare against this
+frames = {}
+for f in sorted(os.listdir(os.path.join(HERE, "evidence"))):
+    if f.endswith(".json"):
+        ev = json.load(open(os.path.join(HERE, "evidence", f)))
+        if ev.get("tier") == "quick" and ev["coverage"].get("state_frames") is not None:
+            frames[ev["property_id"]] = ev["coverage"]["state_frames"]
+json.dump(frames, open(os.path.join(HERE, "contracts", "expected_state_frames.json"), "w"), indent=0, sort_keys=True)
+print("state frames recorded for %d properties, %d functions" % (len(frames), sum(len(v) for v in frames.values())))
